@@ -6,7 +6,7 @@ From Coq Require Import List ZArith NArith String Bool.
 From SCC Require Import Lang.CoreSyn Model.Backend Model.Uniquify Model.Focus Model.FocusCheck
      Sem.AxSem Sem.CoreSem Proof.SubstProof Proof.FocusTheorems Proof.FocusExtra Proof.FocusExamples Proof.FocusSem
      Proof.FocusKont Proof.FocusRel Proof.FocusSim Proof.FocusRun Proof.FocusFrag Proof.FocusPres Proof.FocusPresExamples
-     Proof.UqAeq Proof.UqPres Proof.UqCompose Proof.FocusRefute.
+     Proof.UqAeq Proof.UqPres Proof.UqCompose Proof.FocusRefute Proof.FocusTyped.
 From SCC Require Import Model.FocusGuard.
 Import ListNotations.
 
@@ -210,6 +210,16 @@ Theorem C03_focus_preserves_nonvacuous :
   checks ex_data false true 100 300 [] ([(false, 1); (false, 2); (false, 3); (true, 1)], OExit 1)%Z = true /\
   checks_str ex_lists (100 * 50) (100 * 200) = true.
 Proof. exact (conj ex_order_ok (conj ex_data_ok ex_lists_ok)). Qed.
+(* ... and a program mixing by-name and by-value mu-abstractions (outside both syntactic guards, typed) *)
+Theorem C03_focus_preserves_typed_nonvacuous :
+  negb (sg_prog false true ex_mixed) && negb (sg_prog true false ex_mixed) &&
+  pre_check ex_mixed && focus_wf ex_mixed && cs_prog ex_mixed && tc_prog ex_mixed && tc_entry ex_mixed && static_ok ex_mixed &&
+  match focus_prog ex_mixed with
+  | Ok q => obs_eqb (run_core 100 ex_mixed []) ([(false, 1)], OExit 42)%Z && obs_eqb (run_fs 300 q []) ([(false, 1)], OExit 42)%Z
+  | Err _ => false
+  end = true.
+Proof. exact ex_mixed_ok. Qed.
+Print Assumptions C03_focus_preserves_typed_nonvacuous.
 Print Assumptions C03_focus_preserves_nonvacuous.
 
 (* ---- uniquify preserves behaviour -------------------------------------------------------------------
@@ -251,6 +261,28 @@ Theorem C03_uniquify_focus_preserves_fragment :
     exists fuel', run_fs fuel' q args = run_core fuel p args.
 Proof. exact uniquify_focus_preserves_guarded. Qed.
 Print Assumptions C03_uniquify_focus_preserves_fragment.
+
+(* ---- typed programs --------------------------------------------------------------------------------------
+   tc_prog (Model/FocusGuard.v) is a boolean type checker for Core with exact annotations (an occurrence
+   carries the type of its binder, a cut the type of both sides, xtor arguments and clause contexts follow
+   the declaration of the type, call arguments the parameters of the callee); typing of machine states is
+   preserved by every transition and a typed configuration is no kind clash (Proof/FocusTyped.v). *)
+Theorem C03_typed_clash_free :
+  forall p, tc_prog p = true -> tc_entry p = true -> forall fuel args, clash_free_prog fuel p args = true.
+Proof. exact tc_clash_free_prog. Qed.
+Print Assumptions C03_typed_clash_free.
+
+(* The preservation theorem with static hypotheses only: shape (pre_check, focus_wf), chirality-consistent
+   scoping (cs_prog) and static_ok = simply typed (tc_prog && tc_entry) or inside a syntactic guard.
+   Of the 919 in-precondition cases of the quick suite 908 satisfy all of them (the others: 11 fun2core
+   outputs / hand-built programs with an occurrence of the wrong chirality - the capture defect). *)
+Theorem C03_uniquify_focus_preserves_static :
+  forall p q args fuel,
+    pre_check p = true -> focus_wf p = true -> cs_prog p = true -> static_ok p = true -> focus_prog p = Ok q ->
+    good_end (snd (run_core fuel p args)) ->
+    exists fuel', run_fs fuel' q args = run_core fuel p args.
+Proof. exact uniquify_focus_preserves_static. Qed.
+Print Assumptions C03_uniquify_focus_preserves_static.
 
 (* ---- the unrestricted statement is false ---------------------------------------------------------------
    C03_focus_preserves_statement has only the SHAPE predicates pre_check and focus_wf as hypotheses; they
